@@ -3,7 +3,7 @@ from __future__ import annotations
 import asyncio
 import sys
 from functools import partial
-from typing import Any, Callable
+from typing import Any, Callable, Optional
 
 from ..config import Config
 from ..typing import AppWrapper, ASGIReceiveEvent, ASGISendEvent, LifespanScope, LifespanState
@@ -31,6 +31,7 @@ class Lifespan:
         self.shutdown = asyncio.Event()
         self.app_queue: asyncio.Queue = asyncio.Queue(config.max_app_queue_size)
         self.supported = True
+        self.failure: Optional[LifespanFailureError] = None
         self.loop = loop
         self.state = lifespan_state
 
@@ -59,6 +60,9 @@ class Lifespan:
                 partial(self.loop.run_in_executor, None),
                 _call_soon,
             )
+            if self.failure is not None:
+                # The app caught the error raised when it sent the failure
+                raise self.failure
         except (LifespanFailureError, asyncio.CancelledError):
             raise
         except (BaseExceptionGroup, Exception) as error:
@@ -113,10 +117,13 @@ class Lifespan:
         elif message["type"] == "lifespan.shutdown.complete":
             self.shutdown.set()
         elif message["type"] == "lifespan.startup.failed":
-            self.startup.set()
-            raise LifespanFailureError("startup", message.get("message", ""))
+            # The startup event is set once the app has finished, the
+            # server must not start serving in the meantime.
+            self.failure = LifespanFailureError("startup", message.get("message", ""))
+            raise self.failure
         elif message["type"] == "lifespan.shutdown.failed":
             self.shutdown.set()
-            raise LifespanFailureError("shutdown", message.get("message", ""))
+            self.failure = LifespanFailureError("shutdown", message.get("message", ""))
+            raise self.failure
         else:
             raise UnexpectedMessageError(message["type"])
